@@ -182,11 +182,11 @@ assert self.referenced_symbols[symbol] == c, 'with the count of this scope'
             note = '%s, %s parent' % ('already closed' if closed else 'open', 'with' if has_parent else 'no')
             if closed:
                 cs.append(Contract(MOD + ':Scope.close', params={'self': p}, raises={'ValueError': True},
-                                   ensures=['False'], env=cenv, loops=[loop], notes=note))
+                                   ensures=['False'], env=cenv, notes=note))
             else:
                 cs.append(Contract(MOD + ':Scope.close', params={'self': p},
                                    ensures=['self._closed is True', 'result is None'] + (['iterated_leaked(self)'] if has_parent else ["calls('parent.reference') == 0"]),
-                                   modifies=['self._closed'], env=cenv, loops=[loop], notes=note))
+                                   modifies=['self._closed'], env=cenv, loops=([loop] if has_parent else []), notes=note))
 
     # ---- _reserved_symbols -------------------------------------------------------------------
     RES = z3.Function('resolved_name', S, S)       # what Scope.resolve answers (its own contract is in contracts/obfuscation.py)
